@@ -1,5 +1,5 @@
 (* Props/C09.v -- C09: reported regions agree with evaluation and partition the domain.  Property theorems only. *)
-From AT Require Import Num Vec Aff Farkas PTree Reduce Paths.
+From AT Require Import Num Vec Aff Farkas PTree Reduce Paths Cells Abs PolyGen PolyGenProofs.
 
 (* the label sequence returned by find_terminal is the path of the terminal it returns *)
 Theorem C09_route_is_path : forall t x ls, route t x = Some ls ->
@@ -28,6 +28,21 @@ Theorem C09_cover : forall t x, bin t -> full t ->
   exists ls f, follow t ls = Some (T f) /\ Forall (fun pl => in_closed pl x) (path_preds t ls).
 Proof. exact cover_closed. Qed.
 
+(* the generator: the coded PolyhedraGen machine (DfsPre stack with last_push, predicate stack with the
+   1 + last_depth - depth pops; PolyGen.v pgen_run) produces, for EVERY script of Next / skip_subtree commands, exactly
+   the stream of the specification forest machine (each pending subtree with its depth, remaining-sibling counter
+   and closed path rows; Skip forgets the children of the last item) on the tree the arena unfolds to.
+   ginv: root parentless, child/parent links mirror each other, no child in two slots (C12's invariant), at most two
+   slots per node and one-row predicates on nodes that have children (AffTree<2> well-formedness); its executable
+   form ginvb and the unfolding dabs are evaluated by the runner on every dumped tree *)
+Theorem C09_generator_refines_spec : forall a r fuel dt script, ginv a r -> dabs fuel a r = Some dt ->
+  pgen_run a (pgen_new r) script = f_run (f_new dt) script.
+Proof. exact pgen_run_spec. Qed.
+Theorem C09_ginvb_sound : forall a r, ginvb a r = true -> ginv a r.
+Proof. exact ginvb_sound. Qed.
+Theorem C09_dabs_sound : forall a fuel i t, dabs fuel a i = Some t -> drep a i t.
+Proof. exact dabs_sound. Qed.
+
 Definition c09_p (a b : Qc) : aff := {| a_in := 1; a_mat := [[a]]; a_bias := [b] |}.
 Definition c09_ex : ptree := D (c09_p 1 0) [D (c09_p 1 1) [T (c09_p 0 1); T (c09_p 1 0)]; T (c09_p 0 0)].
 Example C09_nonvacuous : bin c09_ex /\ full c09_ex /\ route c09_ex [1 + 1] = Some [0%nat; 0%nat] /\
@@ -43,3 +58,6 @@ Print Assumptions C09_interior_routed.
 Print Assumptions C09_interiors_disjoint.
 Print Assumptions C09_total.
 Print Assumptions C09_cover.
+Print Assumptions C09_generator_refines_spec.
+Print Assumptions C09_ginvb_sound.
+Print Assumptions C09_dabs_sound.
